@@ -196,6 +196,7 @@ package bbolt
 //@   ensures [shared] db.meta0.txid == old(db.meta0.txid) && db.meta1.txid == old(db.meta1.txid) && tx.writable == old(tx.writable) && dbmeta(db) == old(dbmeta(db)) && db.meta0 == old(db.meta0) && db.meta1 == old(db.meta1) && metavalid(db.meta0) == old(metavalid(db.meta0)) && metavalid(db.meta1) == old(metavalid(db.meta1))
 
 //@ func (*Tx).close
+//@   ensures [runlock] old(tx.db) != nil && !old(tx.writable) ==> old(tx.db).mmaplock.rcount == old(tx.db.mmaplock.rcount) - 1 && !old(tx.db).metalock.held     -- a read-only transaction gives back exactly its own share of the mapping lock
 //@   ensures [batchmu] old(tx.db) != nil ==> old(tx.db).batchMu.held == old(tx.db.batchMu.held)
 //@   props C03 C08 C10
 //@   requires tx.db != nil && tx.writable ==> tx.db.rwlock.held
@@ -281,6 +282,7 @@ package bbolt
 //@   ensures b.tx.db.MaxSize > 0 && b.tx.meta.pgid != old(b.tx.meta.pgid) ==> (b.tx.meta.pgid + 1) * b.tx.db.pageSize <= b.tx.db.MaxSize
 
 //@ func (*Tx).rollback
+//@   ensures [runlock] old(tx.db) != nil && !old(tx.writable) ==> old(tx.db).mmaplock.rcount == old(tx.db.mmaplock.rcount) - 1 && !old(tx.db).metalock.held     -- a read-only transaction gives back exactly its own share of the mapping lock
 //@   ensures [batchmu] old(tx.db) != nil ==> old(tx.db).batchMu.held == old(tx.db.batchMu.held)
 //@   props C08 C03 C07 C02 C06 C10 C13 C14 C01 C09 C04
 //@   requires tx.db != nil && tx.writable ==> tx.db.rwlock.held && tx.meta != nil && tx.db.freelist != nil
@@ -295,6 +297,7 @@ package bbolt
 //@   ensures [disk] unsynced == old(unsynced) && nwrites == old(nwrites)
 
 //@ func (*Tx).nonPhysicalRollback
+//@   ensures [runlock] old(tx.db) != nil && !old(tx.writable) ==> old(tx.db).mmaplock.rcount == old(tx.db.mmaplock.rcount) - 1 && !old(tx.db).metalock.held     -- a read-only transaction gives back exactly its own share of the mapping lock
 //@   ensures [batchmu] old(tx.db) != nil ==> old(tx.db).batchMu.held == old(tx.db.batchMu.held)
 //@   props C08 C03 C04 C07 C09
 //@   requires tx.db != nil && tx.writable ==> tx.db.rwlock.held && tx.meta != nil && tx.db.freelist != nil
@@ -305,6 +308,7 @@ package bbolt
 //@   ensures [disk] unsynced == old(unsynced) && nwrites == old(nwrites)
 
 //@ func (*Tx).Rollback
+//@   ensures [runlock] old(tx.db) != nil && !old(tx.writable) ==> old(tx.db).mmaplock.rcount == old(tx.db.mmaplock.rcount) - 1 && !old(tx.db).metalock.held     -- a read-only transaction gives back exactly its own share of the mapping lock
 //@   props C08 C03 C04 C07 C09
 //@   requires !tx.managed
 //@   requires tx.db != nil && tx.writable ==> tx.db.rwlock.held && tx.meta != nil && tx.db.freelist != nil
@@ -1441,3 +1445,17 @@ package bbolt
 //@   props C04
 //@   requires tx != nil && tx.root.tx != nil
 //@   ensures [delegates] callstotal("(*Bucket).CreateBucketIfNotExists") == old(callstotal("(*Bucket).CreateBucketIfNotExists")) + 1 && lastarg("(*Bucket).CreateBucketIfNotExists", 0).InBucket == tx.root.InBucket && lastarg("(*Bucket).CreateBucketIfNotExists", 1) == bytesval(name) && b == lastret("(*Bucket).CreateBucketIfNotExists", 0)
+
+// DB.View: a managed read-only transaction around the callback: the callback's error is returned unchanged, without a
+// transaction there is an error and the callback does not run, and whatever the callback returns the reader's share of
+// the mapping lock is given back.
+//@ func (*DB).View
+//@   props C03 C02
+//@   requires canbegin(db)
+//@   invokes fn
+//@   callback ensures t.db == db && !t.writable && t.meta != nil && !db.metalock.held && db.mmaplock.rcount == old(db.mmaplock.rcount) + 1 && db.batchMu.held == old(db.batchMu.held)     -- what the callback must leave as it found it: the transaction open, every transaction it began itself closed again
+//@   ensures [cbonfail] !invoked(fn) ==> result != nil
+//@   ensures [cberr] invoked(fn) && cbresult(fn) != nil ==> result == cbresult(fn)
+//@   ensures [released] db.mmaplock.rcount == old(db.mmaplock.rcount)
+//@   ensures [batchmu] db.batchMu.held == old(db.batchMu.held)
+//@   ensures [metalock] !db.metalock.held
